@@ -143,6 +143,8 @@ class SymEx:
         if dyn is None and fn.cls is not None and self_term is not None:
             if self_term[0] in ('new', 'obj'):
                 dyn = self.M.cls(self_term[1])
+            elif self_term[0] == 'call' and self_term[1][0] == 'fn' and self.M.cls(self_term[1][1]) is not None and '.' not in self_term[1][1]:
+                dyn = self.M.cls(self_term[1][1])          # Child().run(x): the receiver was constructed right here
             elif st.env.get('self') == self_term:
                 dyn = self.dyn.get(len(self.frames))
         if dyn is not None and fn.cls is not None and fn.cls not in dyn.mro():
@@ -155,9 +157,21 @@ class SymEx:
             else:
                 env[p] = (args or {}).get(p, ('var', p))
         if fn.node.args.kwarg:
-            env[fn.node.args.kwarg.arg] = (args or {}).get(fn.node.args.kwarg.arg, ('var', fn.node.args.kwarg.arg))
+            kname = fn.node.args.kwarg.arg
+            extra_kw = [(k, v) for k, v in (args or {}).items() if isinstance(k, str) and k not in ps and not k.startswith('*') and k != kname]
+            if args is not None and kname not in args and (extra_kw or getattr(self, '_bind_rest', False)):
+                env[kname] = ('dict', tuple((('str', k), v) for k, v in extra_kw))
+            else:
+                env[kname] = (args or {}).get(kname, ('var', kname))
         if fn.node.args.vararg:
-            env[fn.node.args.vararg.arg] = ('var', fn.node.args.vararg.arg)
+            vname = fn.node.args.vararg.arg
+            extra = []
+            while args is not None and ('*%d' % len(extra)) in args:
+                extra.append(args['*%d' % len(extra)])
+            if extra or (args is not None and getattr(self, '_bind_rest', False)):
+                env[vname] = ('tuple', tuple(extra))
+            else:
+                env[vname] = ('var', vname)
         outer_env = st.env
         if getattr(fn, 'parent', None) is not None and self.frames and self.frames[-1] is fn.parent:
             # a nested function sees the variables of the function that defines it
@@ -183,6 +197,31 @@ class SymEx:
             out.append(p)
         for p in out:
             p.outer_env = outer_env
+        return out
+
+    def run_entry(self, fn, args=None, self_term=None, dyn=None):
+        """Summarise fn as callers see it: through its repo-defined decorators if it has any (else exactly run())."""
+        decs = self._wrappers(fn) if fn.node.decorator_list else []
+        if decs is None:
+            raise Undecided('%s is wrapped by a decorator that is not modelled' % fn.qn)
+        if not decs or args is not None:
+            return self.run(fn, args=args, self_term=self_term, dyn=dyn)
+        is_meth = fn.cls is not None and not fn.is_static
+        ps = [p for p in fn.params if not (is_meth and p in ('self', 'cls') and p == fn.params[0])]
+        bound = {p: ('var', p) for p in ps}
+        st0 = State()
+        st0.env = {'self': self_term or ('var', 'self')} if is_meth else {}
+        host = self.M.module_func(fn.mod)
+        self.frames.append(host)
+        try:
+            res = self.inline_decorated(fn, decs, bound, (self_term or ('var', 'self')) if is_meth else None, st0, fn.node)
+        finally:
+            self.frames.pop()
+        out = []
+        for s, v in res:
+            p = Path(s, 'raise', None) if s.exc is not None else Path(s, 'return', v)
+            p.local_env, p.outer_env = s.env, {}
+            out.append(p)
         return out
 
     @property
@@ -349,6 +388,8 @@ class SymEx:
             return [(st, None)]
         if isinstance(s, ast.Assert):
             return [(x, None) for x, _ in self.ev(s.test, st)]
+        if isinstance(s, ast.Match):
+            return self.block(_match_to_if(s, self.site(s)), st)
         raise Undecided('statement %s at %s' % (type(s).__name__, self.site(s)))
 
     def is_print_guard(self, s):
@@ -1437,8 +1478,75 @@ class SymEx:
             self.frames.pop()
         return bound
 
+    def _wrappers(self, callee):
+        """repo-defined decorators of callee (outermost first); None if some decorator is neither transparent nor a plain repo function"""
+        out = []
+        for d in callee.node.decorator_list:
+            name = ast.unparse(d.func if isinstance(d, ast.Call) else d)
+            base = name.split('.')[-1]
+            if base in ('property', 'staticmethod', 'classmethod', 'abstractmethod', 'setter', 'getter', 'wraps', 'lru_cache', 'cache', 'cached_property',
+                        'contextmanager', 'dataclass', 'total_ordering', 'overload', 'final', 'override'):
+                continue
+            t = self.M.resolve_name(callee.mod, name) if '.' not in name else None
+            from .model import Func
+            if isinstance(t, Func) and not isinstance(d, ast.Call) and len(t.pos_params) == 1:
+                out.append(t)
+            else:
+                return None
+        return out
+
+    def inline_decorated(self, callee, decs, bound, self_term, st, node):
+        """f = D(raw): run the decorator on the raw function, then call what it returned (usually its nested wrapper, a closure over raw)"""
+        if len(decs) != 1:
+            raise Undecided('stacked repo decorators on %s' % callee.qn)
+        D = decs[0]
+        raw = ('fn', callee.qn)
+        self._raw = getattr(self, '_raw', set()) | {callee.qn}
+        try:
+            dps = self.run(D, {D.pos_params[0]: raw}, None, State())
+            dps = [p for p in dps if p.outcome == 'return']
+            if len(dps) != 1:
+                raise Undecided('decorator %s does not return one value' % D.qn)
+            v = dps[0].value
+            while v is not None and v[0] == 'call' and v[1] == ('ext', 'APPLY') and v[2] and v[2][0][0] == 'call' and v[2][0][1] == ('ext', 'functools.wraps') and len(v[2]) == 2:
+                v = v[2][1]              # functools.wraps(fn)(wrapper) is wrapper
+            if v == raw:
+                return self.inline(callee, bound, self_term, st, node)
+            if not (v is not None and v[0] == 'localfn' and v[2] == D.qn and v[1] in D.nested):
+                raise Undecided('decorator %s returns %s' % (D.qn, fmt(v)[:60] if v else None))
+            g = D.nested[v[1]]
+            args = [self_term] if (self_term is not None and callee.cls is not None and not callee.is_static) else []
+            kwargs = [(k, t) for k, t in bound.items() if isinstance(k, str) and not k.startswith('*')]
+            rest = []
+            while ('*%d' % len(rest)) in bound:
+                rest.append(bound['*%d' % len(rest)])
+            saved_env = st.env
+            y = st.copy()
+            y.env = dict(dps[0].local_env)
+            self.frames.append(D)
+            self._bind_rest = True
+            try:
+                res = self.inline(g, self.bind(g, args + rest, kwargs, skip_self=False), None, y, node)
+            finally:
+                self._bind_rest = False
+                self.frames.pop()
+            out = []
+            for z, val in res:
+                z = z.copy()
+                z.env = dict(saved_env)
+                out.append((z, val))
+            return out
+        finally:
+            self._raw = self._raw - {callee.qn}
+
     def inline(self, callee, bound, self_term, st, node):
         """Run callee on st; -> list of (state, value). Raise paths carry state.exc."""
+        if callee.node.decorator_list and callee.qn not in getattr(self, '_raw', ()):
+            decs = self._wrappers(callee)
+            if decs is None:
+                raise Undecided('%s is wrapped by a decorator that is not modelled' % callee.qn)
+            if decs:
+                return self.inline_decorated(callee, decs, bound, self_term, st, node)
         if any(f.qn == callee.qn for f in self.frames):
             raise Undecided('recursion through %s' % callee.qn)
         bound = self.apply_defaults(callee, dict(bound), st)
@@ -1598,8 +1706,38 @@ class SymEx:
             c = self.M.cls(how[5:])
             init = targets[0] if targets else None
             bound = self.bind(init, args, kwargs) if init else {}
-            if c.name in self.value_classes:
+            if c.name in self.value_classes or self.M.is_record_init(c):
                 return self.construct(c, bound, st, e)
+            rf = self.M.record_fields(c)
+            if rf is not None and not any(a[0] == 'starred' for a in args):
+                # a dataclass / NamedTuple new to the tree: the object is its fields
+                names = [n for n, _ in rf]
+                vals = dict(zip(names, args))
+                vals.update({k: v for k, v in kwargs if k in names})
+                ok = True
+                for n, d in rf:
+                    if n not in vals:
+                        if d is None:
+                            ok = False
+                            break
+                        self.frames.append(self.M.module_func(c.mod))
+                        try:
+                            r_ = self.ev(d, State())
+                        finally:
+                            self.frames.pop()
+                        if len(r_) != 1:
+                            ok = False
+                            break
+                        vals[n] = r_[0][1]
+                        if vals[n][0] == 'call' and vals[n][1][0] == 'ext' and vals[n][1][1].endswith('field'):
+                            df = dict(vals[n][3]).get('default')
+                            if df is None:
+                                ok = False
+                                break
+                            vals[n] = df
+                if ok and len(args) <= len(names):
+                    NT_FIELDS[c.name] = tuple(names)
+                    return [(st, ('new', c.name, tuple(sorted(vals.items()))))]
             x = st.ev(Ev('call', callee=[c.name + '.__init__'], args=bound, site=site, fn=fn.qn, how=how, layer=layer,
                          result=None, node=e, recv=None))
             return [(x, ('call', ('fn', c.name), tuple(args), tuple(sorted(kwargs, key=lambda kv: str(kv[0])))))]
@@ -1700,6 +1838,15 @@ class SymEx:
             if all(f_ in vals for f_ in fields) and not any(a[0] == 'starred' for a in args):
                 return [(st, make_nt(tname, [vals[f_] for f_ in fields]))]
             return self.call_opaque(e, fv, args, kwargs, st)
+        if fv[0] == 'fn' and fv[1] in self.M.funcs and self.M.funcs[fv[1]].cls is not None and not self.M.funcs[fv[1]].is_static and args \
+                and not any(a[0] == 'starred' for a in args[:1]):
+            t = self.M.funcs[fv[1]]           # Class.method(obj, ...) / the raw function inside a decorator's wrapper
+            bound = self.bind(t, args[1:], kwargs, skip_self=True)
+            if not self.suppress and (self.policy(fn, t, len(self.frames)) or t.qn in getattr(self, '_raw', ())) and not any(fr.qn == t.qn for fr in self.frames):
+                return self.inline(t, bound, args[0], st, e)
+            res = ('call', ('fn', t.qn), tuple(args), tuple(sorted(kwargs, key=lambda kv: str(kv[0]))))
+            x = st.ev(Ev('call', callee=[t.qn], args=bound, site=site, fn=fn.qn, how='func', layer=1, result=res, node=e, recv=args[0]))
+            return [(x, res)]
         if fv[0] == 'fn' and fv[1] in self.M.funcs:
             t = self.M.funcs[fv[1]]
             if t.cls is None or t.is_static:
@@ -1737,6 +1884,16 @@ class SymEx:
                     if not hasattr(n, 'lineno'):
                         ast.copy_location(n, e)
                 return self.ev(node, st)
+        if fv[0] == 'call' and fv[1] == ('ext', 'functools.partial') and fv[2]:
+            # partial(f, *a, **k)(*b, **l) is f(*a, *b, **{**k, **l})
+            inner = fv[2][0]
+            args2 = list(fv[2][1:]) + list(args)
+            kw2 = dict(fv[3])
+            kw2.update(dict(kwargs))
+            kw2 = sorted(kw2.items(), key=lambda kv: str(kv[0]))
+            if _callable_value(inner, self):
+                return self.call_value(e, inner, args2, kw2, st)
+            return self.call_opaque(e, inner, args2, kw2, st)
         if fv[0] == 'lambda':
             clo = self.closures.get(id(fv))
             if clo is not None and clo[0] is fv and not self.suppress:
@@ -1806,6 +1963,24 @@ class SymEx:
         if fv == ('ext', 'builtins.getattr') and len(args) == 2 and not kws and args[1][0] == 'str' and len(e.args) == 2 and args[1][1].isidentifier():
             # getattr(x, 'name') is x.name
             return self.ev(ast.copy_location(ast.Attribute(value=e.args[0], attr=args[1][1], ctx=ast.Load()), e), st)
+        if fv[0] == 'ext' and fv[1].startswith('operator.') and not kws:
+            opn = fv[1][9:].strip('_')
+            bin_ = {'add': ast.Add, 'sub': ast.Sub, 'mul': ast.Mult, 'truediv': ast.Div, 'floordiv': ast.FloorDiv, 'mod': ast.Mod, 'pow': ast.Pow}
+            cmp_ = {'lt': ast.Lt, 'le': ast.LtE, 'eq': ast.Eq, 'ne': ast.NotEq, 'ge': ast.GtE, 'gt': ast.Gt, 'is': ast.Is, 'is_not': ast.IsNot}
+            if opn in bin_ and len(args) == 2:
+                return [(st, self.binop(bin_[opn](), args[0], args[1]))]
+            if opn in cmp_ and len(args) == 2:
+                return [(st, self.compare(cmp_[opn](), args[0], args[1]))]
+            if opn == 'contains' and len(args) == 2:
+                return [(st, self.compare(ast.In(), args[1], args[0]))]
+            if opn == 'neg' and len(args) == 1:
+                return [(st, T.t_neg(args[0]))]
+            if opn == 'not' and len(args) == 1:
+                return [(st, mk_not(args[0]))]
+            if opn == 'getitem' and len(args) == 2:
+                return [(st, self.subscript(args[0], args[1], st))]
+            if opn in ('abs', 'index') and len(args) == 1:
+                return [(st, ('call', ('ext', 'ABS'), (args[0],), ())) if opn == 'abs' else (st, args[0])]
         if fv == ('ext', 'DICT') and len(args) == 1 and not kws:
             dc = _dict_of_zip(args[0], self.bv_depth)
             if dc is not None:
@@ -1859,6 +2034,63 @@ def reduce_subscript(b, i):
     class _Sx:
         subscript = SymEx.subscript
     return _Sx().subscript(b, i, _St)
+
+
+def _match_to_if(s, site):
+    """match subject: case P1: B1 ... -> tmp = subject; if test(P1): binds; B1 elif ...  (value, singleton, or-, wildcard/capture and fixed-length sequence patterns)"""
+    tmp = '_match_%d' % getattr(s, 'lineno', 0)
+
+    def L(n):
+        for x in ast.walk(n):
+            if not hasattr(x, 'lineno'):
+                ast.copy_location(x, s)
+        return n
+
+    def test(p, subj):
+        """-> (test expr or None for always-true, [bindings as (name, expr)])"""
+        if isinstance(p, ast.MatchValue):
+            return ast.Compare(left=subj, ops=[ast.Eq()], comparators=[p.value]), []
+        if isinstance(p, ast.MatchSingleton):
+            return ast.Compare(left=subj, ops=[ast.Is()], comparators=[ast.Constant(value=p.value)]), []
+        if isinstance(p, ast.MatchOr):
+            ts = [test(q, subj) for q in p.patterns]
+            if any(b for _, b in ts):
+                raise Undecided('match: capture inside an or-pattern at %s' % site)
+            if any(t is None for t, _ in ts):
+                return None, []
+            return ast.BoolOp(op=ast.Or(), values=[t for t, _ in ts]), []
+        if isinstance(p, ast.MatchAs):
+            if p.pattern is None:
+                return None, ([(p.name, subj)] if p.name else [])
+            t, b = test(p.pattern, subj)
+            return t, b + ([(p.name, subj)] if p.name else [])
+        if isinstance(p, ast.MatchSequence) and not any(isinstance(q, ast.MatchStar) for q in p.patterns):
+            parts = [ast.Compare(left=ast.Call(func=ast.Name(id='len', ctx=ast.Load()), args=[subj], keywords=[]), ops=[ast.Eq()],
+                                 comparators=[ast.Constant(value=len(p.patterns))])]
+            binds = []
+            for i, q in enumerate(p.patterns):
+                t, b = test(q, ast.Subscript(value=subj, slice=ast.Constant(value=i), ctx=ast.Load()))
+                if t is not None:
+                    parts.append(t)
+                binds += b
+            return (parts[0] if len(parts) == 1 else ast.BoolOp(op=ast.And(), values=parts)), binds
+        raise Undecided('match pattern %s at %s' % (type(p).__name__, site))
+
+    subj = ast.Name(id=tmp, ctx=ast.Load())
+    chain = None
+    for case in reversed(s.cases):
+        t, binds = test(case.pattern, subj)
+        if case.guard is not None:
+            if binds:
+                raise Undecided('match: guard on a capturing pattern at %s' % site)
+            t = case.guard if t is None else ast.BoolOp(op=ast.And(), values=[t, case.guard])
+        body = [ast.Assign(targets=[ast.Name(id=n, ctx=ast.Store())], value=v) for n, v in binds] + list(case.body)
+        if t is None:
+            chain = body
+        else:
+            chain = [ast.If(test=t, body=body, orelse=chain or [])]
+    out = [ast.Assign(targets=[ast.Name(id=tmp, ctx=ast.Store())], value=s.subject)] + (chain or [])
+    return [L(x) for x in out]
 
 
 def _literal_rows(it):
@@ -1950,7 +2182,9 @@ def _as_nt(v):
 def _callable_value(fv, sx):
     if fv[0] == 'call' and fv[1] in (('ext', 'operator.attrgetter'), ('ext', 'operator.itemgetter'), ('ext', 'operator.methodcaller')):
         return True
-    return fv[0] in ('nt', 'lambda') or (fv[0] == 'fn' and fv[1] in sx.M.funcs and (sx.M.funcs[fv[1]].cls is None or sx.M.funcs[fv[1]].is_static))
+    if fv[0] == 'call' and fv[1] == ('ext', 'functools.partial') and fv[2]:
+        return True
+    return fv[0] in ('nt', 'lambda') or (fv[0] == 'fn' and fv[1] in sx.M.funcs)
 
 
 def is_nt_attr(recv, f):
